@@ -180,7 +180,8 @@ def render_dimacs(rng, val, fancy=True):
                 if fancy and rng.random() < 0.15:
                     # line break inside the clause, maybe followed by comment / blank lines
                     s += opt_blanks(rng) + eol
-                    for _ in range(rng.choice([0, 0, 1])):
+                    # (several of them, in any order: the gap is `newline (comment | newline)*`)
+                    for _ in range(rng.choice([0, 0, 1, 2, 3])):
                         s += rng.choice([comment_line(rng, eol), eol])
                     s += opt_blanks(rng)
                 else:
